@@ -21,7 +21,8 @@ LEVEL_TEXT = ("Theorems (Coq, all inputs, over the reals): the dispatch of Integ
               "back ends modelled line by line and the boost quadratures replaced by a stand-in rule) is compared with the C++ on every case: bit for bit for the own back ends, "
               "at the method's accuracy for boost. Also on the implementation only (S4): every front end equals, bit for bit, the back end of the method name called directly and nested "
               "level by level by the harness with the same method_parameter; the fixed rules evaluate n points per level; limits of different axes that coincide; nearly equal limits; "
-              "re-entrant user functions. Known finding K-C13-1: Tanh-Sinh on intervals narrow relative to their position.")
+              "re-entrant user functions. Known findings K-C13-1: Tanh-Sinh on intervals narrow relative to their position; K-C13-2: a panel of the adaptive Simpson rule accepted by its "
+              "|S2-S| test although it is off by far more than the tolerance.")
 LEVEL_NOTE = ("Coq 8.16.1 kernel; theorems over R use the standard library's real-number axioms and Coquelicot's RInt (axioms listed in the evidence); premises carried by the theorems: "
               "exactness of the selected 1-D back end on the integrands that occur, continuity/integrability of the integrand; boost::math::quadrature (trapezoidal, gauss<30>, "
               "gauss_kronrod<31>, tanh_sinh) is external code modelled as a Section variable; hand-written model tied by differential correspondence (extraction with ExtrOcamlBasic only)")
@@ -795,6 +796,43 @@ def compare(c, io, mo, tol):
 
 
 # ---------------------------------------------------------------- S4
+def as_sim(fun, a, b):
+    """the adaptive Simpson rule behind the name "Adaptive-Simpson" as the source states it (epsilon = 1e-9 |three-point Simpson estimate|, a panel is accepted when
+    |S2 - S| <= 15 epsilon, epsilon is halved with every bisection, depth 20), evaluated on an exactly known integrand"""
+    if a == b: return 0.0
+    sign = 1.0
+    if a > b: a, b, sign = b, a, -1.0
+    c = (a + b) / 2; h = b - a
+    fa, fb, fc = fun(a), fun(b), fun(c)
+    S = (h / 6) * (fa + 4 * fc + fb)
+
+    def rec(a, b, eps, S, fa, fb, fc, bottom):
+        c = (a + b) / 2; h = b - a; d = (a + c) / 2; e = (b + c) / 2
+        fd, fe = fun(d), fun(e)
+        Sl = (h / 12) * (fa + 4 * fd + fc); Sr = (h / 12) * (fc + 4 * fe + fb); S2 = Sl + Sr
+        if bottom <= 0 or abs(S2 - S) <= 15 * eps: return S2 + (S2 - S) / 15
+        return rec(a, c, eps / 2, Sl, fa, fc, fd, bottom - 1) + rec(c, b, eps / 2, Sr, fc, fb, fe, bottom - 1)
+    return sign * rec(a, b, abs(1e-9 * S), S, fa, fb, fc, 20)
+
+
+def as_false_acceptance(op, lim, ann, val, ex, slack):
+    """known finding K-C13-2: does the stopping rule of the adaptive Simpson method, applied level by level to the exactly known factors of the case (on a separable
+    integrand the nested result is the product of the one-dimensional results: the tolerance is relative, so every inner call scales with the outer variables),
+    itself miss the exact integral by more than the slack, and is that what the implementation returned?"""
+    try:
+        kind = ann[0]
+        if kind in ("1d", "nd", "1d@", "nd@"):
+            _, facs = parse_ann(ann)
+            sim = 1.0
+            for k, f in enumerate(facs): sim *= as_sim(f.g, lim[2 * k], lim[2 * k + 1])
+        elif kind in ("sphr", "sphr@"):
+            _, facs = parse_ann(ann); g = facs[0]
+            sim = as_sim(lambda r: r * r * g.g(r), lim[0], lim[1]) * (lim[3] - lim[2]) * (lim[5] - lim[4])
+        else: return False
+        return abs(sim - ex) > slack and abs(sim - val) <= 0.1 * abs(val - ex)
+    except (OverflowError, ZeroDivisionError, ValueError): return False
+
+
 def predicates(c, io):
     out = []
     op, method, p, lim, fex, ann = parse_case(c.line)
@@ -856,7 +894,9 @@ def predicates(c, io):
         # accuracy of the inner method when the user's function is itself computed by a quadrature
         slack = d * acc_of(method) * sc + 1e-13 * sc + extra
         if not (abs(val - ex) <= slack):
-            out.append((f"{op}:value" + (":tanh-sinh-narrow-interval" if tanh_sinh_narrow(op, method, lim) else ""), f"{method}: result {val!r}, exact integral {ex!r} (difference {abs(val-ex):.3g} > {slack:.3g})"))
+            region = ":tanh-sinh-narrow-interval" if tanh_sinh_narrow(op, method, lim) else \
+                     ":adaptive-simpson-false-acceptance" if method == "Adaptive-Simpson" and as_false_acceptance(op, lim, ann, val, ex, slack) else ""
+            out.append((f"{op}:value" + region, f"{method}: result {val!r}, exact integral {ex!r} (difference {abs(val-ex):.3g} > {slack:.3g})"))
     return out
 
 
